@@ -141,6 +141,42 @@ class C17Bounded(Bounded):
             ok2 = {"changed": "xB1y" in second and "A1" not in second, "removed": second in ("SigmaValueError", "SigmaPlaceholderError"), "merged-elsewhere": second == first}[step_kind]
             if not (ok1 and ok2):
                 fail("history", f"one backend, two conversions, variable table {step_kind} in between: first query {first!r}, second {second!r}", [step_kind])
+        # history on one backend object, literal first: a value whose TEXT is %a%-x (escaped percent signs, or no expand modifier) converted
+        # before a value with the real placeholder %a%-x - in every position a value can take, also as a member of a value list
+        shapes = {"single": "    f{m}: {v}", "list": "    f{m}:\n      - {v}\n      - other", "contains-list": "    f{m}|contains:\n      - {v}\n      - other", "keywords": "    '{m}':\n      - {v}\n      - other",
+                  "all-list": "    f{m}|all:\n      - {v}\n      - other"}
+        mkrule = lambda shape, m, v: "title: t\nlogsource:\n  category: c\ndetection:\n  s:\n" + shapes[shape].format(m=m, v=v).replace("'':", "'|':").replace("'|'", "'|'") + "\n  condition: s\n"
+        for shape, lit, same_rule in itertools.product(shapes, (("|expand", "'\\%a\\%-x'"), ("", "'%a%-x'")), (False, True)):
+            ev += 1
+            nontriv += 1
+            b = TextQueryTestBackend()
+            lm, lv = lit
+            if shape == "keywords":
+                lm = lm or "|"          # keyword lists carry modifiers under the key '|mod'; a bare '|' is not valid: use a field-less plain list instead
+            try:
+                if shape == "keywords" and lit[0] == "":
+                    first_rule = "title: t\nlogsource:\n  category: c\ndetection:\n  s:\n    - " + lv + "\n    - other\n  condition: s\n"
+                else:
+                    first_rule = mkrule(shape, lm, lv)
+                probe = mkrule(shape, "|expand", "'%a%-x'")
+                if same_rule:
+                    doc = first_rule.replace("  s:\n", "  s0:\n").replace("  condition: s\n", "") + probe.split("detection:\n")[1].replace("condition: s", "condition: s0 or s")
+                    lit_out = None
+                    try:
+                        got = b.convert(SigmaCollection.from_yaml(doc))
+                    except SigmaError as e:
+                        got = type(e).__name__
+                else:
+                    lit_out = b.convert(SigmaCollection.from_yaml(first_rule))
+                    try:
+                        got = b.convert(SigmaCollection.from_yaml(probe))
+                    except SigmaError as e:
+                        got = type(e).__name__
+            except Exception as e:
+                fail("literal-history", f"literal then placeholder ({shape}, literal written as {lit}, same rule {same_rule}): {type(e).__name__}: {e}", [shape, list(lit), same_rule])
+                continue
+            if not isinstance(got, str):
+                fail("literal-history", f"one backend converted the literal text {lv} ({shape}{', same rule' if same_rule else ''}: {lit_out}) and then a value with the unresolved placeholder %a%-x: query {got} instead of a Sigma error", [shape, list(lit), same_rule])
         return {"evaluations": ev, "distinct_nontrivial": nontriv, "failures": fails, "failure_counts": seen,
-                "bound": f"three histories on one backend object (variables changed / removed / pipeline merged elsewhere between two conversions); {len(vals)} values (<= 3 pieces over {pieces}) x 6 positions (string, keyword, contains, regular expression without / followed by / surrounded by flag modifiers) x {len(pipes)} pipelines", "rule": "distinct (position, value, pipeline); non-trivial = at least one placeholder",
+                "bound": f"literal-then-placeholder histories in 5 value positions x 2 spellings x same / next rule; three histories on one backend object (variables changed / removed / pipeline merged elsewhere between two conversions); {len(vals)} values (<= 3 pieces over {pieces}) x 6 positions (string, keyword, contains, regular expression without / followed by / surrounded by flag modifiers) x {len(pipes)} pipelines", "rule": "distinct (position, value, pipeline); non-trivial = at least one placeholder",
                 "samples": samples, "exhaustive": tier != "quick"}
